@@ -245,6 +245,36 @@ def MapsState.env (s : MapsState) : Env :=
       if mapName = chainFromWl then s.fromWl.verdict key
       else if mapName = chainToWl then s.toWl.verdict key else none }
 
+/-! ### endpoint manager: which host interfaces are protected (`resolveHostEndpoints`, named HEPs) -/
+
+/-- the host endpoints currently configured (`rawHostEndpoints`: id → interface name, `none` = the
+all-interfaces `*` endpoint) and the host interfaces that currently exist (`hostIfaceToAddrs`) -/
+structure EpmState where
+  heps : List (String × Option Bytes) := []
+  ifaces : List Bytes := []
+  deriving Repr, Inhabited
+
+def EpmState.setHep (s : EpmState) (id : String) (name : Option Bytes) : EpmState :=
+  { s with heps := s.heps.filter (·.1 != id) ++ [(id, name)] }
+def EpmState.rmHep (s : EpmState) (id : String) : EpmState := { s with heps := s.heps.filter (·.1 != id) }
+def EpmState.setIface (s : EpmState) (n : Bytes) (present : Bool) : EpmState :=
+  { s with ifaces := s.ifaces.filter (· != n) ++ (if present then [n] else []) }
+
+/-- existing interfaces that some named host endpoint claims -/
+def EpmState.names (s : EpmState) : List Bytes := s.ifaces.filter fun n => s.heps.any (·.2 == some n)
+/-- is a wildcard host endpoint configured? -/
+def EpmState.wild (s : EpmState) : Bool := s.heps.any (·.2 == none)
+/-- the default chain's pseudo interface (canonical name `*`) -/
+def EpmState.dflt (s : EpmState) : Bytes := if s.wild then [42] else []
+
+/-- the filter-table host dispatch chains the endpoint manager must have programmed: a function of
+the CURRENT host endpoints and interfaces only -/
+def EpmState.filterDispatch (s : EpmState) : Option (List Chain) :=
+  hostDispatchChains .ipt s.names s.dflt [[99, 97, 108, 105]] .both true
+/-- the mangle-table egress dispatch (`ToHostDispatchChains`) -/
+def EpmState.mangleDispatch (s : EpmState) : Option (List Chain) :=
+  hostDispatchChains .ipt s.names s.dflt [[99, 97, 108, 105]] .to false
+
 /-- Decidable side condition of the dispatch theorems: the rendered chain names are pairwise
 distinct and none of the external targets (endpoint chains) is the name of a dispatch chain.
 (Evaluated by the driver on every generated case and compared with the same check on the real
